@@ -13,6 +13,8 @@ pub mod proxy;
 pub mod canon;
 #[path = "agent/trunc.rs"]
 pub mod trunc;
+#[path = "agent/telemetry.rs"]
+pub mod telemetry;
 
 pub fn main() {
     let engine = std::env::var("VERIF_ENGINE").unwrap_or_default();
@@ -22,6 +24,7 @@ pub fn main() {
         "proxy" => proxy::run(),
         "canon" => canon::run(),
         "trunc" => trunc::run(),
+        "telemetry" => telemetry::run(),
         _ => {
             eprintln!("unknown engine {:?}", engine);
             std::process::exit(2);
